@@ -40,6 +40,8 @@ type fileDesc struct {
 	Sub    string `json:"sub"`            // ply: ascii|le|be (+ "-ref" for the independent encoder); spz: v1|v2 + degree
 	Hex    string `json:"hex"`            // the complete valid file
 	Cuts   []int  `json:"cuts,omitempty"` // nil: all admissible cut positions
+	// ASCII PLY (independent encoder): every body line carries this many surplus trailing tokens the reader ignores
+	Surplus int `json:"surplus,omitempty"`
 	// pts only: the abstract token view
 	PtsCount int     `json:"pts_count,omitempty"`
 	PtsLines [][]int `json:"pts_lines,omitempty"`
@@ -115,7 +117,9 @@ func randMesh(r *hx.Rng, tris bool, uv bool, big bool) modeling.Mesh {
 // independent PLY encoder (written from the PLY specification): uchar colours with/without alpha, double and int
 // columns, triangle and quad faces, uchar/uint count types, float/double texcoord lists, all three encodings
 func genRefPly(r *hx.Rng, big bool) (fileDesc, bool) {
-	sub := hx.Pick(r, []string{"ascii", "le", "be"})
+	sub := []string{"ascii", "le", "be"}[refSeq%3] // every encoding in turn; every other ASCII file carries surplus tokens
+	wantSurplus := (refSeq/3)%2 == 0
+	refSeq++
 	fmtName := map[string]string{"ascii": "ascii", "le": "binary_little_endian", "be": "binary_big_endian"}[sub]
 	type vp struct{ ty, name string }
 	posTy := hx.Pick(r, []string{"float", "float", "double"})
@@ -195,8 +199,15 @@ func genRefPly(r *hx.Rng, big bool) (fileDesc, bool) {
 			out = append(out, buf[:n]...)
 		}
 	}
+	surplus := 0
+	if ascii && wantSurplus {
+		surplus = r.Range(1, 2)
+	}
 	flush := func() {
 		if ascii {
+			for i := 0; i < surplus; i++ {
+				line = append(line, fmt.Sprintf("%d", 70+i)) // ignored by the reader: not part of the promised data
+			}
 			out = append(out, strings.Join(line, " ")+"\n"...)
 			line = line[:0]
 		}
@@ -228,12 +239,13 @@ func genRefPly(r *hx.Rng, big bool) (fileDesc, bool) {
 		}
 		flush()
 	}
-	return fileDesc{Format: "ply", Sub: sub + "-ref", Hex: hex.EncodeToString(out)}, true
+	return fileDesc{Format: "ply", Sub: sub + "-ref", Hex: hex.EncodeToString(out), Surplus: surplus}, true
 }
 
 const nKinds = 8
 
 var spzSeq = 0
+var refSeq = 0
 
 func genFile(r *hx.Rng, which int, big bool) (fileDesc, bool) {
 	var buf bytes.Buffer
@@ -525,6 +537,15 @@ func fileCase(d fileDesc, thorough bool) hx.Case {
 		if ascii {
 			for need > bodyStart && isWs(data[need-1]) {
 				need--
+			}
+			// surplus tokens of the last line are trailing framing too
+			for i := 0; i < d.Surplus && need > bodyStart; i++ {
+				for need > bodyStart && !isWs(data[need-1]) {
+					need--
+				}
+				for need > bodyStart && isWs(data[need-1]) {
+					need--
+				}
 			}
 		}
 	case "spz":
